@@ -35,6 +35,15 @@ class Subst(ast.NodeTransformer):
             return copy.deepcopy(self.env[n.id])
         return n
 
+    def visit_Attribute(self, n: ast.Attribute):
+        # write-once fields:  keys like 'self.tick_length_secs'
+        if isinstance(n.ctx, ast.Load):
+            t = attr_chain(n)
+            if t is not None and t in self.env:
+                import copy
+                return copy.deepcopy(self.env[t])
+        return self.generic_visit(n)
+
 
 def subst(e: ast.expr, env: Optional[Dict[str, ast.expr]]) -> ast.expr:
     if not env:
